@@ -1193,7 +1193,8 @@ example : ((run baseRoutes exOn [shutdownOp, .tick, .tick, .tick]).st, (run base
 /-- reset = 4 ticks down, then (same tick) OFF→BOOTING, 3 more ticks up; the whole micro-trace -/
 example : (run baseRoutes exOn [resetOp, .tick, .tick, .tick, .tick, .tick, .tick, .tick]).hist =
     [.on, .booting, .off, .shuttingDown] := by decide
-/-- back ON: linked interface up, STOPPED/PAUSED→(STOPPED→)RUNNING, DISABLED stays, unlinked interface stays down -/
+/-- back ON: linked interface up, RUNNING/PAUSED→STOPPED→RUNNING, DISABLED stays, the unlinked interface stays down;
+the software clock resumes in the tick that reaches ON (the pending install completes) -/
 example : let n := run baseRoutes exOn [resetOp, .tick, .tick, .tick, .tick, .tick, .tick, .tick]
     (n.nics.map (·.enabled), n.svcs.map (·.st), n.apps.map (·.st)) =
     ([true, false], [.running, .running, .disabled, .restarting], [.running, .running]) := by decide
@@ -1328,6 +1329,11 @@ theorem C12_gen_interfaces :
 theorem C12_gen_software_guards :
     canPerformActionTestsNodeOn = true ∧ serviceStartGuarded = true ∧ applicationRunGuarded = true ∧
     softwareSendGuarded = true ∧ softwareReceiveGuarded = true := by decide
+
+/-- so every theorem above that assumes `allGuarded tbl` applies to the regenerated table of every node class -/
+theorem C12_all_classes_guarded (cls : String) (tbl : List Route) (hc : (cls, tbl) ∈ classTables) :
+    allGuarded tbl = true :=
+  List.all_eq_true.mp C12_gen_routes_guarded (cls, tbl) hc
 
 /-- hence, for every node class of the code: refused unless start-up -/
 theorem C12_refused_unless_startup_all_classes (cls : String) (tbl : List Route) (hc : (cls, tbl) ∈ classTables)
